@@ -8,7 +8,7 @@ CHECKS = {
          "Trusted: hook H4 (a counter), the raw TCP client, >=100 ms separation between generated durations and thresholds; slow resolutions within 10x slack are labelled inconclusive.",
          "DESIGN.md §4 C16"),
  "C20": ("cprops", "property-based testing (proptest): grammar + mutation generated guards x derived/near-miss hosts, independent validator and matcher vs the compiler's validator/pattern (hook H2) in a real matchit router; pairwise conflict relation",
-         "Guards from a grammar and single mutations, judged by an independent validator; accepted guards are matched against hosts by an independent matcher and by a real matchit router loaded with the compiler's pattern under the documented host normalisation; pairs: reported conflicts need a common host, identically shaped guards must conflict. One genuine validator defect found and fixed; both seeded defects caught. The host normalisation of the generated server is covered end to end by the E2E engine.",
+         "Guards from a grammar and single mutations, judged by an independent validator; accepted guards are matched against hosts by an independent matcher and by a real matchit router loaded with the compiler's pattern under the documented host normalisation; pairs: reported conflicts need a common host, identically shaped guards must conflict. Two genuine validator defects found and fixed (parameter names with blanks; more than 25 parameters crash the router: found by the libFuzzer stage of the thorough tier, then reproduced by the proptest campaign); both seeded defects caught. The host normalisation of the generated server is covered end to end by the E2E engine.",
          "Trusted: hook H2 (a forwarding wrapper), the harness validator/matcher. Host case, non-ASCII parameter names and overlaps resolved by router specificity are classified only.",
          "DESIGN.md §4 C20"),
  "C18": ("rtprops", "property-based testing (proptest): generated key->sources assignments x profile x directory form, one child process per case, precedence model",
@@ -118,8 +118,8 @@ manifest = {
     "kind_free_text": "in-process proptest checks that link the compiler library (pavexc, feature verif_hooks)"},
    {"name": "pxe2e", "path": "harness/pxe2e", "serves_properties": [p for p in props if p in CHECKS and CHECKS[p][0]=="pxe2e"] + ["C19"],
     "kind_free_text": "end-to-end engine: proptest-generated application crates -> Blueprint::persist -> real pavexc (rebuilt from /repo) -> rustc -> instrumented server driven over loopback; reference models for scopes, pipelines and routing; greedy spec shrinking; work lanes under /verif/.work"},
-   {"name": "rtfuzz", "path": "harness/fuzz", "serves_properties": ["C17"],
-    "kind_free_text": "cargo-fuzz / libFuzzer target (nightly, ASan) over rtprops::c17::case_from_bytes + the C17 oracle; thorough tier only"},
+   {"name": "rtfuzz", "path": "harness/fuzz", "serves_properties": ["C17", "C20"],
+    "kind_free_text": "cargo-fuzz / libFuzzer targets (nightly): fz_c17 (ASan) over rtprops::c17::case_from_bytes, fz_c20 (no sanitizer, links the compiler) over cprops::c20::case_from_bytes; same oracles as the proptest campaigns; thorough tier only"},
    {"name": "rtprops", "path": "harness/rtprops", "serves_properties": [p for p in props if p in CHECKS and CHECKS[p][0]=="rtprops"],
     "kind_free_text": "in-process proptest checks against the real runtime/compiler library crates (path dependencies on /repo), fixed-seed TestRunner, shrunk failures saved as replay files"},
  ],
